@@ -73,6 +73,10 @@ Section Ids.
   Lemma tpi_name_rename p : tpi_name (rename_tpi pi p) = tpi_name p.
   Proof. reflexivity. Qed.
 
+  Lemma tuple_or_array_map_ids t :
+    WellFormed.tuple_or_array (map_ids pi t) = WellFormed.tuple_or_array t.
+  Proof. destruct t; reflexivity. Qed.
+
   Theorem tp_tokens_map_ids alloc t : tp_tokens alloc (map_ids pi t) = tp_tokens alloc t.
   Proof.
     induction t as [p|ptoks params IH|o IH|len o IH|els IH|p|i f cp IH|o st b IHo IHs]
@@ -83,7 +87,7 @@ Section Ids.
     - rewrite !tp_tokens_TArray, IH. reflexivity.
     - rewrite !tp_tokens_TTuple, (mapM_map_same _ _ _ IH). reflexivity.
     - reflexivity.
-    - rewrite !tp_tokens_TCompact, IH. reflexivity.
+    - rewrite !tp_tokens_TCompact, IH, tuple_or_array_map_ids. reflexivity.
     - rewrite !tp_tokens_TBitVec, IHo, IHs. reflexivity.
   Qed.
 
@@ -150,7 +154,7 @@ Section Ids.
       exfalso. exact (Hm e' eq_refl).
     - cbn [tp_tokens]. destruct p; cbn; discriminate.
     - rewrite tp_tokens_TCompact. destruct (tp_tokens alloc i) as [x|e'|m]; cbn [bind].
-      + destruct f; discriminate.
+      + destruct f; [destruct (WellFormed.tuple_or_array i)|]; cbn [andb]; discriminate.
       + exfalso. exact (IH e' eq_refl).
       + discriminate.
     - rewrite tp_tokens_TBitVec. destruct (tp_tokens alloc o) as [x|e'|m]; cbn [bind].
